@@ -678,3 +678,16 @@ func (w *World) Watchers(hash string) []Watcher {
 	}
 	return out
 }
+
+// InvoiceByBolt11 finds a registered invoice by its payment request string.
+func (w *World) InvoiceByBolt11(req string) *Invoice {
+	w.mu.Lock()
+	defer w.mu.Unlock()
+	for _, i := range w.Invoices {
+		if strings.EqualFold(i.Bolt11, req) {
+			cp := *i
+			return &cp
+		}
+	}
+	return nil
+}
